@@ -44,7 +44,7 @@ class Image(DirectivePlugin):
     def parse(self, block: "BlockParser", m: Match[str], state: "BlockState") -> Dict[str, Any]:
         options = dict(self.parse_options(m))
         attrs = _parse_attrs(options)
-        attrs["src"] = self.parse_title(m)
+        attrs["src"] = escape_url(self.parse_title(m))
         return {"type": "block_image", "attrs": attrs}
 
     def __call__(self, directive: "BaseDirective", md: "Markdown") -> None:
@@ -119,7 +119,7 @@ class Figure(DirectivePlugin):
     def parse(self, block: "BlockParser", m: Match[str], state: "BlockState") -> Dict[str, Any]:
         options = dict(self.parse_options(m))
         image_attrs = _parse_attrs(options)
-        image_attrs["src"] = self.parse_title(m)
+        image_attrs["src"] = escape_url(self.parse_title(m))
 
         align = image_attrs.pop("align", None)
         fig_attrs = {}
